@@ -150,6 +150,11 @@ func pushScenario(t *rapid.T, restartFocus bool) sim.Scenario {
 			st = sim.Step{Op: "advance", D: pick(t, "adv", []int{500, 1200, 3500})}
 		case roll < 90 && pushes > 0:
 			st = sim.Step{Op: "pushcancel", K: rapid.IntRange(1, pushes).Draw(t, "pc"), After: pick(t, "pcafter", []int{0, 0, 8000, 30000, 100000})}
+			if rapid.IntRange(0, 3).Draw(t, "cancelreq") == 0 {
+				// CancelRequest with a small id: it may name one of the peer's own
+				// calls (or nothing at all) - never a callback, whose ids are 1, 2, 3 too
+				st = sim.Step{Op: "cancel", ID: pick(t, "crid", []string{"1", "2", "3"})}
+			}
 		case roll < 94 && !stopped:
 			stopped = true
 			st = sim.Step{Op: pick(t, "stopkind", []string{"stop", "peerclose"})}
